@@ -118,6 +118,18 @@ func concMain() {
 				}
 			}
 		}
+		// one operation on far more names than any batching constant, observed while it runs
+		n++
+		{
+			db := openCfg(cfg, dir, n)
+			concBigDelete(db, cfg)
+			db.Close()
+			if cfg == "wal" {
+				for _, suf := range []string{"", "-wal", "-shm"} {
+					os.Remove(filepath.Join(dir, fmt.Sprintf("conc_%d.db", n)) + suf)
+				}
+			}
+		}
 		for c := 0; c < *cons; c++ {
 			for _, kind := range []string{"incr", "pop", "move"} {
 				n++
@@ -181,6 +193,63 @@ func concRound(db *redka.DB, cfg string, rnd *rand.Rand) {
 				mu.Lock()
 				evs = append(evs, concEv{t0, t1, c, text, res})
 				mu.Unlock()
+			}
+		}(c)
+	}
+	wg.Wait()
+	post, err := takeDump(db.RW)
+	if err != nil {
+		fmt.Fprintln(os.Stderr, "conc: post-dump:", err)
+		os.Exit(2)
+	}
+	sort.Slice(evs, func(i, j int) bool { return evs[i].call < evs[j].call })
+	var parts []string
+	for _, e := range evs {
+		parts = append(parts, fmt.Sprintf("%d %d %d %s => %s", e.call, e.ret, e.client, e.text, e.res))
+	}
+	seq++
+	fmt.Fprintf(out, "CONC %d %d %s | %s | %s | %s\n", seq, nowMs(), cfg, pre.render(ident), strings.Join(parts, " ;; "), post.render(ident))
+}
+
+// concBigDelete: DEL of 1100 names in one call while three observers count the first and the last
+// of them: every count must be 2 or 0 (the delete takes effect at one instant).
+func concBigDelete(db *redka.DB, cfg string) {
+	var names []string
+	for i := 0; i < 1100; i++ {
+		names = append(names, fmt.Sprintf("b%04d", i))
+		db.Str().Set(names[i], "v")
+	}
+	pre, err := takeDump(db.RW)
+	if err != nil {
+		fmt.Fprintln(os.Stderr, "conc: dump:", err)
+		os.Exit(2)
+	}
+	var mu sync.Mutex
+	var evs []concEv
+	var wg sync.WaitGroup
+	start := time.Now()
+	do := func(c int, st step) {
+		e := &env{r: redis.RedkaDB(db), db: db}
+		t0 := time.Since(start).Nanoseconds()
+		res := st.run(e, ident)
+		t1 := time.Since(start).Nanoseconds()
+		mu.Lock()
+		evs = append(evs, concEv{t0, t1, c, st.text, res})
+		mu.Unlock()
+	}
+	wg.Add(1)
+	go func() {
+		defer wg.Done()
+		time.Sleep(200 * time.Microsecond)
+		do(0, opKeyDelete(names))
+	}()
+	for c := 1; c <= 3; c++ {
+		wg.Add(1)
+		go func(c int) {
+			defer wg.Done()
+			for i := 0; i < 4; i++ {
+				do(c, opKeyCount([]string{names[0], names[len(names)-1]}))
+				time.Sleep(time.Duration(50*c) * time.Microsecond)
 			}
 		}(c)
 	}
